@@ -1,6 +1,7 @@
 import SecsModel.Basic.Py
 import SecsModel.Gen.HsmsHeader
 import SecsModel.Gen.BlockFmt
+import SecsModel.Gen.RxOrder
 /-!
 # Model.Rx — HSMS blocks and the receive side framing loop (hand model of the Python)
 
@@ -92,5 +93,70 @@ def feed (s : Rx) (chunk : Bytes) : Rx :=
 
 /-- `_on_disconnected`: `self._receive_buffer.clear()` -/
 def Rx.disconnect (s : Rx) : Rx := { s with buf := [] }
+
+/-!
+## OnData — the hand-over of a received segment from the connection's thread to the receiver thread
+
+`Protocol._on_connection_data_received` runs on the connection's thread: its statements (the *generated* list `Gen.RxOrder.onData`) are
+executed one per step.  The receiver thread (`ProtocolDispatcher._receiver_thread_function`) waits for the trigger, clears it, and then
+makes one pass over the receive buffer (`feed` above).  `unseen` = the buffer holds bytes no receiver pass has looked at yet.
+`feed`'s "one `on_data` event followed by one run of the loop" is sound only if no wake-up can be lost here.
+-/
+namespace OnData
+
+inductive RxPc | idle | woke     -- in `trigger.wait()` / trigger cleared, pass over the buffer still to come
+deriving DecidableEq, Repr
+
+structure St where
+  prog : List String   -- what is left of the handler for the segment being handed over
+  unseen : Bool
+  trig : Bool
+  rx : RxPc
+deriving DecidableEq, Repr
+
+def St.init : St := ⟨[], false, false, .idle⟩
+
+inductive Lbl
+  | segment      -- environment: the connection's thread has received a segment and enters the handler
+  | conn         -- one statement of the handler
+  | rx           -- one step of the receiver thread
+deriving DecidableEq, Repr
+
+def step (onData : List String) (s : St) : Lbl → Option St
+  | .segment => if s.prog = [] then some { s with prog := onData } else none
+  | .conn =>
+    match s.prog with
+    | [] => none
+    | st :: rest =>
+      if st = "append" then some { s with prog := rest, unseen := true }
+      else if st = "trigger" then some { s with prog := rest, trig := true }
+      else none
+  | .rx =>
+    match s.rx with
+    | .idle => if s.trig then some { s with trig := false, rx := .woke } else none
+    | .woke => some { s with unseen := false, rx := .idle }
+
+def labels : List Lbl := [.segment, .conn, .rx]
+
+def run (onData : List String) : St → List Lbl → Option St
+  | s, [] => some s
+  | s, l :: ls => match step onData s l with
+    | some s' => run onData s' ls
+    | none => none
+
+/-- **lost wake-up**: bytes nobody has looked at, the receiver thread asleep, no wake-up pending and none coming from the handler -/
+def lost (s : St) : Bool := s.unseen && !s.trig && s.rx == .idle && !s.prog.contains "trigger"
+
+/-- breadth-first closure (the system is finite: `prog` is a suffix of the handler) -/
+def closure (onData : List String) : Nat → List St → List St → List St
+  | 0, seen, _ => seen
+  | n+1, seen, frontier =>
+    let next := (frontier.flatMap (fun s => labels.filterMap (step onData s))).foldl (fun acc x => if acc.contains x then acc else acc ++ [x]) seen
+    let fresh := next.drop seen.length
+    if fresh.isEmpty then seen else closure onData n next fresh
+
+def reach (onData : List String) : List St := closure onData 32 [St.init] [St.init]
+
+end OnData
 
 end SecsModel.Model.Rx
